@@ -147,6 +147,12 @@ def run_job(j):
         j.timed_out = True
         j.log = (e.stdout or b'').decode('utf-8', 'replace')
     j.wall = time.time() - t0
+    if j.out:
+        try:
+            with open(j.out + '.log', 'w') as f:
+                f.write(j.log[-200000:])
+        except OSError:
+            pass
     return j
 
 
